@@ -228,9 +228,20 @@ fn verify_sublayouts(
     link_dir: &str,
 ) -> Result<HashMap<String, HashMap<KeyId, LinkMetadata>>> {
     let mut steps_link_metadata = HashMap::new();
-    for (step_name, key_link_dict) in chain_link_dict {
+    // verifying a sub-layout runs its inspections, which see and change the
+    // working directory: visit the steps in layout order and the evidence of
+    // a step in key-id order, not in the order of the hash maps
+    for step in &layout.steps {
+        let step_name = &step.name;
+        let key_link_dict = match chain_link_dict.get(step_name) {
+            Some(key_link_dict) => key_link_dict,
+            None => continue,
+        };
+        let mut evidence: Vec<(&KeyId, &Metablock)> =
+            key_link_dict.iter().collect();
+        evidence.sort_by(|a, b| a.0.cmp(b.0));
         let mut link_per_step = HashMap::new();
-        for (keyid, link) in &key_link_dict {
+        for (keyid, link) in evidence {
             let link_metadata = match &link.metadata {
                 MetadataWrapper::Layout(_) => {
                     // If it's a layout, go ahead.
@@ -262,7 +273,7 @@ fn verify_sublayouts(
                         link,
                         layout_key_dict,
                         sublayout_link_dir_path,
-                        Some(&step_name),
+                        Some(step_name),
                     )?;
 
                     match summary_link.metadata {
